@@ -503,7 +503,9 @@ class Engine:
                 'in memory or as a file, with filters) and a twin in which one delivery channel is permuted by the run PRNG: rows '
                 'of the observed catalog / assignment of synthetic catalogs to ids and positions / cells of the region together '
                 'with the rate rows; 1-5 evaluations (N, NBD-N, L, CL, S, M, binary S/CL, Brier, paired T; catalog N, S, M, PL, '
-                'resampled-M, MLL) run on both worlds from the same RNG state. distinct = digest of (world shape, channel, tests); '
+                'resampled-M, MLL) run on both worlds from the same RNG state; delivery details: forecast as file or array, '
+                'switched-off cells, observed catalog via JSON or re-ordered in place, seed as int / int64 / uint32, events on '
+                'cell edges, shared meridians and the equator. distinct = digest of (world shape, channel, tests); '
                 'non-trivial = a non-identity permutation and >= 1 compared pair')
 
     @staticmethod
